@@ -599,24 +599,24 @@ theorem step_iters_stable (s : Cow) (op : CowOp) (k : Nat) (it : Iter) (h : s.it
     intro l x e
     subst e
     exact ⟨it, by rw [List.getElem?_append_left hk]; exact h, rfl, rfl, rfl, id⟩
-  have hrw : ∀ po' b c, (s.rewrite po' b c).iters = s.iters := by
-    intro po' b c; unfold Cow.rewrite; split <;> rfl
+  have hrw : ∀ (t : Cow) po' b c, (t.rewrite po' b c).iters = t.iters := by
+    intro t po' b c; unfold Cow.rewrite; split <;> rfl
   have hens : s.ensureStep.iters = s.iters := by
     unfold Cow.ensureStep; split
     · rfl
-    · exact hrw _ _ _
+    · exact hrw _ _ _ _
   cases op with
   | add n c =>
     simp only [Cow.step]
     split
     · exact keep _ rfl
-    · exact keep _ (hrw _ _ _)
+    · exact keep _ (hrw _ _ _ _)
   | delete n c =>
     simp only [Cow.step]
     split
     · split
-      · exact keep _ (hrw _ _ _)
-      · exact keep _ (hrw _ _ _)
+      · exact keep _ (hrw _ _ _ _)
+      · exact keep _ (hrw _ _ _ _)
     · exact keep _ rfl
   | ensure => exact keep _ hens
   | iterate c =>
@@ -624,7 +624,7 @@ theorem step_iters_stable (s : Cow) (op : CowOp) (k : Nat) (it : Iter) (h : s.it
     split
     · exact keepApp _ _ hens
     · split
-      · exact keepApp _ _ (by simp only [hrw]; exact hens)
+      · exact keepApp _ _ ((hrw _ _ _ _).trans hens)
       · exact keepApp _ _ hens
   | finish i =>
     simp only [Cow.step]
@@ -650,5 +650,27 @@ theorem run_iters_stable (ops : List CowOp) : ∀ (s : Cow) (k : Nat) (it : Iter
     obtain ⟨it1, h1, b1, l1, s1, a1⟩ := step_iters_stable s op k it h
     obtain ⟨it2, h2, b2, l2, s2, a2⟩ := ih (s.step op) k it1 h1
     exact ⟨it2, by simpa [Cow.run] using h2, b2.trans b1, l2.trans l1, s2.trans s1, fun e => a1 (a2 e)⟩
+
+/-- `iterateStringKeys` registers one new iterator, whose snapshot is the (sorted) name list of that moment -/
+theorem iterate_new (s : Cow) (c : Nat) :
+    ∃ x, (s.step (.iterate c)).iters = s.iters ++ [x] ∧
+      (x.active = true → x.snap = (s.step (.iterate c)).po.names ∧ x.len = x.snap.length) := by
+  have hrw : ∀ (t : Cow) po' b c, (t.rewrite po' b c).iters = t.iters := by
+    intro t po' b c; unfold Cow.rewrite; split <;> rfl
+  have hens : s.ensureStep.iters = s.iters := by
+    unfold Cow.ensureStep; split
+    · rfl
+    · exact hrw _ _ _ _
+  simp only [Cow.step]
+  split
+  · exact ⟨_, by rw [hens], by intro e; cases e⟩
+  · split
+    · refine ⟨_, by simp only [hrw, hens]; rfl, ?_⟩
+      intro _
+      simp only [rewrite_po, Cow.len]
+      exact ⟨trivial, trivial⟩
+    · refine ⟨_, by rw [hens], ?_⟩
+      intro _
+      exact ⟨rfl, rfl⟩
 
 end GojaModel.C04
